@@ -1,7 +1,11 @@
-//! Correspondence harness of property C14 (stub).
+//! Correspondence harness of property C14 (KZG multi-opening).
 use mzkh::Ctx;
 
+mod sets;
+mod tr;
+
 fn main() {
-    let ctx = Ctx::from_args("C14");
+    let mut ctx = Ctx::from_args("C14");
+    sets::run(&mut ctx);
     ctx.finish();
 }
